@@ -693,6 +693,12 @@ impl PeerHandler {
         interested: bool,
         req_data: &ReqData,
     ) -> Result<(), Box<dyn std::error::Error>> {
+        #[cfg(rdest_verif)]
+        crate::verif::assigned(
+            &self.connection.addr,
+            req_data.piece_index,
+            req_data.piece_length,
+        );
         self.piece_rx = Some(PieceRx::new(req_data));
 
         if interested {
